@@ -139,8 +139,10 @@ def structure_problem(case, res):
     """shape facts the Coq terms rely on (Q dict over state_list x action_list, array shapes, integer counts)"""
     sl, al = res["state_list"], res["action_list"]
     nS, nA = len(sl), len(al)
-    if sl != sorted(gen_mdp.reachable(case["mdp"])):
-        return "state-list-not-reachable-set"
+    if sl != sorted(set(sl)) or any(not (isinstance(s, int) and 0 <= s < case["mdp"]["n"]) for s in sl):
+        return "state-list-not-a-sorted-set-of-generated-states"
+    if res["n_states"] != nS or res["n_actions"] != nA:
+        return "learner-table-size-differs-from-state-list-x-action-list"
     if res["q_states"] != sl or any(qa != al for qa in res["q_actions"]):
         return "q-dict-not-over-state-list-x-action-list"
     if any(x is None or isinstance(x, str) for row in res["Q"] for x in row):
